@@ -132,3 +132,19 @@ func TestC03DsReadB64AddsItsOffset(t *testing.T) {
 		t.Errorf("ds_read_b64 v[2:3], v0 offset:8 with v0 = 16 read %#x, LDS bytes 24..31 are 0x1f1e1d1c1b1a1918", got)
 	}
 }
+
+// KNOWN FINDING R03.18: v_div_fixup_f64 confuses IEEE bit patterns with numbers.
+func TestC03DivFixupF64DivisionByZero(t *testing.T) {
+	s := newDemo(insts.VOP3a, 479)
+	s.inst.Src0 = insts.NewVRegOperand(0, 0, 2)
+	s.inst.Src1 = insts.NewVRegOperand(2, 2, 2)
+	s.inst.Src2 = insts.NewVRegOperand(4, 4, 2)
+	s.inst.Dst = insts.NewVRegOperand(6, 6, 2)
+	s.WriteOperand(s.inst.Src0, 0, math.Float64bits(math.Inf(1))) // quotient estimate
+	s.WriteOperand(s.inst.Src1, 0, math.Float64bits(0.0))         // denominator
+	s.WriteOperand(s.inst.Src2, 0, math.Float64bits(1.0))         // numerator
+	NewALU(nil).Run(s)
+	if got := math.Float64frombits(s.ReadOperand(s.inst.Dst, 0)); !math.IsInf(got, 1) {
+		t.Errorf("v_div_fixup_f64 for 1.0 / 0.0 returns %g, the ISA prescribes +Inf", got)
+	}
+}
